@@ -259,7 +259,20 @@ REJECTS = {
 }
 UNFITTED = {"Trend": lambda: vd.Trend(1), "Spline": lambda: vd.Spline(), "SplineCV": lambda: vd.SplineCV(), "VectorSpline2D": lambda: vd.VectorSpline2D(),
             "KNeighbors": lambda: vd.KNeighbors(), "Linear": lambda: vd.Linear(), "Cubic": lambda: vd.Cubic(),
-            "Chain": lambda: vd.Chain([("t", vd.Trend(1))]), "Vector": lambda: vd.Vector([vd.Trend(1), vd.Trend(1)])}
+            "Chain": lambda: vd.Chain([("t", vd.Trend(1))]), "Vector": lambda: vd.Vector([vd.Trend(1), vd.Trend(1)]),
+            # a NEW, never fitted composite built from parts that carry state from earlier, unrelated fits: still unfitted
+            "Vector-of-fitted-parts": lambda: vd.Vector([_fitted_part(vd.Trend(1)), _fitted_part(vd.Spline(damping=1e-2))]),
+            "Chain-of-fitted-parts": lambda: vd.Chain([("t", _fitted_part(vd.Trend(1))), ("k", _fitted_part(vd.KNeighbors(k=1)))]),
+            "Chain-of-Vector-of-fitted-parts": lambda: vd.Chain([("v", vd.Vector([_fitted_part(vd.Trend(0)), _fitted_part(vd.Trend(1))]))]),
+            "clone-of-fitted-Trend": lambda: __import__("sklearn.base").base.clone(_fitted_part(vd.Trend(1))),
+            "clone-of-fitted-Chain": lambda: __import__("sklearn.base").base.clone(
+                vd.Chain([("t", vd.Trend(1)), ("s", vd.Spline(damping=1e-2))]).fit((np.arange(6.0), np.arange(6.0) ** 2 % 5), np.arange(6.0)))}
+
+
+def _fitted_part(g):
+    e = np.array([0.0, 1.0, 2.5, 3.0, 4.5, 6.0])
+    n = np.array([1.0, -1.0, 0.5, 2.0, 3.5, -2.0])
+    return g.fit((e, n), 0.5 * e - n + 1.0)
 
 
 def corpus():
